@@ -348,6 +348,9 @@ func facets(c *wl.Crit, spec map[string]string, sameTs bool, rows []map[string]*
 				if strings.ContainsAny(v, "|\\") {
 					set["entity-value-with-delimiter"] = true // the series-key delimiter / escape character in an entity constant
 				}
+				if len(v) > 64 {
+					set["entity-value-long"] = true // a very long entity constant (hundreds of bytes)
+				}
 			}
 			count[x.Tag]++
 			if inOr {
@@ -534,6 +537,26 @@ func runMeasure(e *simcore.Env, tp *simcore.Tape) {
 						cls = "non-matching-row-returned"
 					}
 					rowsS := ""
+					if len(m.Rows) > 12 { // the entity values of the first rows on which predicate and answer differ
+						wset, gset, k := map[int64]bool{}, map[int64]bool{}, 0
+						for _, x := range want {
+							wset[x] = true
+						}
+						for _, x := range got {
+							gset[x] = true
+						}
+						for _, r := range m.Rows {
+							if wset[r.Wid] != gset[r.Wid] && k < 4 {
+								k++
+								rowsS += fmt.Sprintf("\n   differs: wid=%d returned=%v", r.Wid, gset[r.Wid])
+								for _, t := range base.Tags {
+									if t.Entity {
+										rowsS += " " + t.Name + "=" + clip(wl.CanonTag(r.Tags[t.Name]))
+									}
+								}
+							}
+						}
+					}
 					if len(m.Rows) <= 12 {
 						gset := map[int64]bool{}
 						for _, x := range got {
